@@ -751,6 +751,23 @@ where
         // C18: a second swarm under identifier A (built with the `new_with_id` constructors) in a scope, after a first phase
         // with the default identifier; a swarm whose repair step runs a scoped inner loop with its own LessThanN; a swarm
         // started after another phase has filled the best-individual memory from a different population
+        // C18: the generic `pso` template with a constant inertia weight (no weight schedule configured)
+        "real_pso|const" => {
+            use mahf::components::{boundary, swarm::pso as sp};
+            let (np, sw) = (u(p, "num_particles"), f(p, "start_weight"));
+            let (c1, c2, vm) = (f(p, "c_one"), f(p, "c_two"), f(p, "v_max"));
+            let body = pso::pso::<P, mahf::identifier::Global>(
+                pso::Parameters {
+                    particle_init: sp::ParticleSwarmInit::new(vm)?,
+                    particle_update: sp::ParticleVelocitiesUpdate::new(sw, c1, c2, vm)?,
+                    constraints: boundary::Saturation::new(),
+                    inertia_weight_update: None,
+                    state_update: sp::ParticleSwarmUpdate::new(),
+                },
+                cond(),
+            );
+            Ok(Configuration::builder().do_(initialization::RandomSpread::new(np)).evaluate().update_best_individual().do_(body).build())
+        }
         "real_pso@AG" | "real_pso|scoped" | "real_pso|phase2" => {
             use mahf::components::{boundary, mapping, swarm::pso as sp};
             use mahf::identifier::A;
@@ -895,6 +912,11 @@ where
         }
         "real_fa" => fa::real_fa(fa::RealProblemParameters { pop_size: u(p, "pop_size"), alpha: f(p, "alpha"), beta: f(p, "beta"), gamma: f(p, "gamma"), delta: f(p, "delta") }, cond()),
         "real_bh" => bh::real_bh(bh::RealProblemParameters { num_particles: u(p, "num_particles") }, cond()),
+        // C20: the CRO template used as a step of a heuristic that keeps a population of its own further down the stack
+        "real_cro|under" => {
+            let inner = real_template::<P>("real_cro", p, n)?.into_inner();
+            Ok(Configuration::builder().do_(initialization::RandomSpread::new(u(p, "under_size"))).evaluate().update_best_individual().do_(inner).build())
+        }
         "real_cro" => cro::real_cro(
             cro::RealProblemParameters {
                 initial_population_size: u(p, "initial_population_size"),
